@@ -35,9 +35,12 @@
  *   - the light health workload is re-run and compared with the baseline; after a failed module load also the full one;
  *   - everything is freed; under ASan the leak checker runs after every case (__lsan_do_recoverable_leak_check) and a
  *     leak is reported as  !leak(<allocating libyang function>,<its caller>)  read from the captured report;
- *   - a successful module load makes the context dirty: it is destroyed (not-freed warnings must be 0) and re-created,
- *     and every re-created context must reproduce the first baseline; at the end of the shard the used context is compared
- *     with a FRESH one on the full workload and destroyed.
+ *   - a successful module load, or a case that left strings / memory behind, ends the life of the context: it is destroyed
+ *     WITHIN the case (strings still referenced at ly_ctx_destroy() are a failure of that case unless it was already reported for
+ *     leaving them) and re-created for the next case; every re-created context must reproduce the first baseline; at the end of
+ *     the input the used context is compared with a FRESH one on the full workload (reported on stderr only).
+ *   - an error code needs an error record; LY_ENOT / LY_ENOTFOUND / LY_EINCOMPLETE are answers (not errors) only for the searching
+ *     and matching entries (xfind xeval sxfind fpath npath value pattern) and LY_ENOT for lyd_parse_op (documented).
  * Output: one line  "<entry> rc=<n> <observations> H=ok"  ; every failed post-condition is a word starting with '!'.
  */
 #include "common.h"
@@ -689,9 +692,16 @@ get_input(const char *f, size_t *len)
     return exact(raw, *len);
 }
 
+/* "not found / no match / needs the data tree" are answers, not errors, for the searching and matching entry points; a
+ * parser has no such answers (except the documented LY_ENOT of lyd_parse_op for an unexpected NETCONF root element) */
+static int strict_record;
+
 static int
 needs_record(LY_ERR rc)
 {
+    if (strict_record) {
+        return rc && (strict_record == 2 ? (rc != LY_ENOT) : 1);
+    }
     return rc && (rc != LY_ENOT) && (rc != LY_ENOTFOUND) && (rc != LY_EINCOMPLETE);
 }
 
@@ -764,6 +774,7 @@ run_case(struct shard *S, struct vcase *c, int nf)
     dict_stat(ctx, &dict0, &ref0);
     heap0 = __sanitizer_get_current_allocated_bytes ? __sanitizer_get_current_allocated_bytes() : 0;
     printf("%s ", entry);
+    strict_record = (!strcmp(entry, "yang") || !strcmp(entry, "yin") || !strcmp(entry, "data")) ? 1 : (!strcmp(entry, "op") ? 2 : 0);
 
     if ((!strcmp(entry, "yang") || !strcmp(entry, "yin")) && (nf >= 3)) {
         struct lys_module *mod = NULL;
@@ -1140,6 +1151,13 @@ main(void)
             }
             ++S.cases;
             run_case(&S, &c, nf);
+            if (S.dirty || S.blamed) {
+                /* a module was loaded, or the case left strings / memory behind: the context is destroyed within this
+                 * case, so that what the destruction finds (strings still referenced) belongs to this case and the next
+                 * cases start from a clean context */
+                printf(" ");
+                shard_close(&S, 0);
+            }
         }
         cpu_limit(0);
         /* the leak checker stops the world and costs ~0.1 s: it runs only when the heap in use has grown over the call
